@@ -5,6 +5,7 @@ Monitor A (differential, this module): real CLI option strings -> real filter st
 DemuxURLFilter.test_info and FetchRule.consult_filters(is_redirect in {False, True}) on
 boundary-directed (URL, record) pairs, compared with harness.refscope.
 Monitor B (end-to-end crawls offering out-of-scope links): checks.c02b_crawl, merged here.
+Monitor C (recursive FTP crawls of generated directory trees: directory, file and glob start URLs): checks.c02c_ftp.
 '''
 import asyncio
 import io
@@ -254,7 +255,9 @@ def main():
     if check.args.replay:
         with open(check.args.replay) as f:
             rp = json.load(f)
-        if 'crawl' in rp['replay']:
+        if 'ftp' in rp['replay']:
+            res = par.run_jobs('checks.c02c_ftp:worker', [{'seed': 0, 'replay': rp['replay']}], 1, timeout=300)
+        elif 'crawl' in rp['replay']:
             from checks import c02b_crawl
             res = par.run_jobs('checks.c02b_crawl:worker', [{'seed': 0, 'replay': rp['replay'],
                                                              '_env': {'PYTHONHASHSEED': rp['replay'].get('hashseed', 0)}}], 1, timeout=300)
@@ -269,17 +272,16 @@ def main():
         jobs = [{'seed': check.seed * 1000003 + i, 'sets': sets[i::nj], 'per_set': per_set} for i in range(nj)]
         jobs = [j for j in jobs if j['sets']]
         res = par.run_jobs(target, jobs, check.jobs, timeout=7200 if check.thorough else 900)
-        try:
-            from checks import c02b_crawl
-            res += c02b_crawl.run(check)
-        except ImportError:
-            check.count('monitor_b_not_built', 1)
+        from checks import c02b_crawl, c02c_ftp
+        res += c02b_crawl.run(check)
+        res += c02c_ftp.run(check)
     for r in res:
         if '_error' in r:
             check.note_inconclusive('worker: ' + r['_error'] + ' ' + r.get('_stderr', '')[-400:])
         else:
             check.merge(r)
-    check.finish(required_counters=() if check.args.replay else ('verdicts_compared', 'option_sets'))
+    check.finish(required_counters=() if check.args.replay else ('verdicts_compared', 'option_sets', 'crawl_requests_checked',
+                                                                 'ftp_commands_checked', 'ftp_crawls_within_scope'))
 
 
 if __name__ == '__main__':
